@@ -27,6 +27,7 @@ import (
 	"os"
 	"strings"
 	"sync"
+	"sync/atomic"
 	"testing"
 	"time"
 
@@ -74,11 +75,17 @@ type Worker struct {
 //	prep   build the tls.Config for Host (TLSForHost / TLS()) now and keep it;
 //	       a later get/hs with Held uses that object instead of a new one - what
 //	       a server does that sets its TLS side up before the client speaks
+//	sweep  Count distinct names (SNI) through TLSForHost(Host), one after the
+//	       other, then all again in another order: the long-history class
 //	tunnels Workers each open a CONNECT tunnel through a real martian.Proxy
 //	       that uses the Config for MITM, optionally idle (Gap), then handshake
 //
 // Host indexes Case.Hosts (the CONNECT authority, used when Sni is empty);
-// Host -1 is the empty fallback "", Host -2 the host-less fallback ":443".
+// Host -1 is the empty fallback "", Host -2 the host-less fallback ":443",
+// Host -3 / -4 authorities no certificate can be issued for (raw UTF-8 IDN,
+// non-UTF-8 byte). An Sni with non-ASCII bytes is such a name as well: for
+// these the outcome is free (refusal expected), but the request must return
+// and the config must go on serving the NEXT requests.
 // API "tls" uses Config.TLS() (no fallback at all) instead of TLSForHost.
 type Op struct {
 	Kind    string   `json:"k"`
@@ -88,6 +95,8 @@ type Op struct {
 	TLS12   bool     `json:"tls12,omitempty"` // hs: client caps the version at TLS 1.2
 	Std     bool     `json:"std,omitempty"`   // hs: the client itself verifies (RootCAs + ServerName), as a browser would
 	Held    bool     `json:"held,omitempty"`  // get/hs: use the tls.Config kept by an earlier prep of the same API/Host
+	Count   int      `json:"count,omitempty"` // sweep: number of distinct names
+	Tag     int      `json:"tag,omitempty"`   // sweep: names are h<k>.sweep<Tag>.test, so two sweeps with one Tag share them
 	Workers []Worker `json:"workers,omitempty"`
 }
 
@@ -198,10 +207,14 @@ func dnsClass(name string) string {
 // refusal.
 type expectation struct {
 	refuse bool
-	name   string // host to verify for
-	canon  string
-	shape  string // signature component: api, sni presence, spelling class
-	key    string // identity used for "requested before" bookkeeping (the name exactly as spelled)
+	// lenient: the name is outside the statement's spellings (raw UTF-8,
+	// bytes that are not UTF-8): refusal and issuance are both acceptable, the
+	// request only has to come back
+	lenient bool
+	name    string // host to verify for
+	canon   string
+	shape   string // signature component: api, sni presence, spelling class
+	key     string // identity used for "requested before" bookkeeping (the name exactly as spelled)
 }
 
 func expect(hosts []Host, api string, host int, sni string) expectation {
@@ -210,6 +223,9 @@ func expect(hosts []Host, api string, host int, sni string) expectation {
 		a = "tls"
 	}
 	if sni != "" {
+		if !plainASCII(sni) {
+			return expectation{lenient: true, name: sni, canon: strings.ToLower(sni), shape: a + "-sni-non-ascii", key: sni}
+		}
 		return expectation{name: sni, canon: strings.ToLower(sni), shape: a + "-sni-" + dnsClass(sni), key: sni}
 	}
 	if api == "tls" {
@@ -220,10 +236,16 @@ func expect(hosts []Host, api string, host int, sni string) expectation {
 		return expectation{refuse: true, shape: "forhost-nosni-empty-fallback"}
 	case host == -2:
 		return expectation{refuse: true, shape: "forhost-nosni-port-only-fallback"}
+	case host == oddUTF8 || host == oddBytes:
+		n := fallbackSpelling(hosts, host)
+		return expectation{lenient: true, name: n, canon: n, shape: "forhost-nosni-non-ascii-authority", key: n}
 	case host < 0 || host >= len(hosts):
 		return expectation{refuse: true, shape: "forhost-nosni-bad-index"}
 	}
 	h := hosts[host]
+	if h.Class == "odd" {
+		return expectation{lenient: true, name: h.Name, canon: h.Canon, shape: "forhost-nosni-non-ascii-authority", key: h.Name}
+	}
 	s := a + "-nosni-" + h.Class
 	if h.Port {
 		s += "-port"
@@ -231,8 +253,28 @@ func expect(hosts []Host, api string, host int, sni string) expectation {
 	return expectation{name: h.Name, canon: h.Canon, shape: s, key: h.Name}
 }
 
+// Host indexes below -2: CONNECT authorities for which no certificate can be
+// issued (x509 refuses a dNSName that is not ASCII / a subject that is not UTF-8).
+const (
+	oddUTF8  = -3 // an IDN sent as raw UTF-8 instead of its xn-- form
+	oddBytes = -4 // a byte that is not UTF-8 at all (kept out of the JSON case for that reason)
+)
+
+func plainASCII(s string) bool {
+	for i := 0; i < len(s); i++ {
+		if s[i] >= 0x80 {
+			return false
+		}
+	}
+	return true
+}
+
 func fallbackSpelling(hosts []Host, host int) string {
 	switch {
+	case host == oddUTF8:
+		return "b\u00fccher.example:443"
+	case host == oddBytes:
+		return "a\xffb.example:443"
 	case host == -2:
 		return ":443"
 	case host < 0 || host >= len(hosts):
@@ -255,6 +297,7 @@ type exec struct {
 	mu          sync.Mutex
 	maxNotAfter time.Time
 
+	wedged   atomic.Bool            // a request did not come back: the rest of the history is not run
 	held     map[string]*tls.Config // prep'd configurations, by API/Host
 	lastPrep time.Time
 	proxy    *netkit.Proxy // started by the first tunnels step
@@ -279,6 +322,9 @@ func (x *exec) fail(sig, format string, args ...interface{}) {
 	x.v.Addf(sig, format, args...)
 }
 
+// panicSeen: GetCertificate has panicked (and was recovered) somewhere in this process.
+var panicSeen atomic.Bool
+
 func heldKey(api string, host int) string { return fmt.Sprintf("%s/%d", api, host) }
 
 func (x *exec) serverConfig(api string, host int, held bool) *tls.Config {
@@ -287,10 +333,52 @@ func (x *exec) serverConfig(api string, host int, held bool) *tls.Config {
 			return cfg
 		}
 	}
+	var cfg *tls.Config
 	if api == "tls" {
-		return x.cfg.TLS()
+		cfg = x.cfg.TLS()
+	} else {
+		cfg = x.cfg.TLSForHost(fallbackSpelling(x.c.Hosts, host))
 	}
-	return x.cfg.TLSForHost(fallbackSpelling(x.c.Hosts, host))
+	// A panic below GetCertificate would otherwise take the process down from
+	// inside the tls.Server goroutine; it is a failure of this request.
+	inner := cfg.GetCertificate
+	cfg.GetCertificate = func(chi *tls.ClientHelloInfo) (cert *tls.Certificate, err error) {
+		defer func() {
+			if r := recover(); r != nil {
+				panicSeen.Store(true)
+				x.fail("C06/panic/get-certificate", "GetCertificate(%s, SNI %q) panicked: %v", describeReq(x.c.Hosts, api, host, chi.ServerName), chi.ServerName, r)
+				cert, err = nil, fmt.Errorf("panic: %v", r)
+			}
+		}()
+		return inner(chi)
+	}
+	return cfg
+}
+
+// await runs f and waits for it: kit.T(), then (unless rapid is shrinking) once
+// more up to 3*kit.T(). ok=false means f is still running - a request that
+// never came back; the goroutine is abandoned.
+func (x *exec) await(f func()) (ok bool) {
+	done := make(chan struct{})
+	go func() {
+		defer close(done)
+		f()
+	}()
+	select {
+	case <-done:
+		return true
+	case <-time.After(kit.T()):
+	}
+	if kit.Shrinking() {
+		return false
+	}
+	select {
+	case <-done:
+		kit.Inconclusive(x.check)
+		return true
+	case <-time.After(3 * kit.T()):
+		return false
+	}
 }
 
 func describeReq(hosts []Host, api string, host int, sni string) string {
@@ -391,6 +479,7 @@ type result struct {
 	cert   *tls.Certificate
 	err    error
 	t0, t1 time.Time
+	hang   bool // GetCertificate did not return within the liveness bound
 }
 
 func (x *exec) request(where string, api string, host int, sni string, held bool) result {
@@ -403,6 +492,25 @@ func (x *exec) request(where string, api string, host int, sni string, held bool
 	}
 	scfg := x.serverConfig(api, host, held)
 	r.t0 = time.Now()
+	var (
+		cert *tls.Certificate
+		err  error
+	)
+	if x.await(func() { cert, err = scfg.GetCertificate(&tls.ClientHelloInfo{ServerName: sni}) }) {
+		r.cert, r.err = cert, err
+	} else {
+		r.hang = true
+	}
+	r.t1 = time.Now()
+	return r
+}
+
+// requestInBurst is request without the per-call watchdog (the burst as a
+// whole is watched for progress instead, so the call rate stays high).
+func (x *exec) requestInBurst(where string, host int, sni string) result {
+	r := result{e: expect(x.c.Hosts, "", host, sni), where: where + " " + describeReq(x.c.Hosts, "", host, sni)}
+	scfg := x.serverConfig("", host, false)
+	r.t0 = time.Now()
 	r.cert, r.err = scfg.GetCertificate(&tls.ClientHelloInfo{ServerName: sni})
 	r.t1 = time.Now()
 	return r
@@ -411,6 +519,14 @@ func (x *exec) request(where string, api string, host int, sni string, held bool
 // judge applies the oracle to one direct request.
 func (x *exec) judge(r result) {
 	e, where, cert, err := r.e, r.where, r.cert, r.err
+	if r.hang {
+		x.wedged.Store(true)
+		x.fail("C06/liveness/"+e.shape+"/get-certificate-does-not-return", "%s: GetCertificate has not returned after %s", where, r.t1.Sub(r.t0).Round(time.Millisecond))
+		return
+	}
+	if e.lenient {
+		return // refused or served: both fine for a name outside the stated spellings
+	}
 	if e.refuse {
 		if err == nil && cert != nil {
 			cn := "?"
@@ -469,6 +585,7 @@ type hsOut struct {
 	echoed     bool
 	t0, t1     time.Time
 	timeout    bool
+	stuck      bool
 }
 
 func isTimeout(err error) bool {
@@ -518,9 +635,20 @@ func handshakeOnce(scfg, ccfg *tls.Config, bound time.Duration) hsOut {
 		}
 	}
 	cp.Close()
-	out.serr = <-done
+	// the server side ends with the pipe - unless it is stuck below
+	// GetCertificate, where no deadline reaches it
+	grace := time.Until(dl) + time.Second
+	if grace < time.Second {
+		grace = time.Second
+	}
+	select {
+	case out.serr = <-done:
+	case <-time.After(grace):
+		out.serr = errors.New("server side of the handshake still has not returned (stuck outside I/O)")
+		out.stuck = true
+	}
 	out.t1 = time.Now()
-	out.timeout = isTimeout(out.cerr) || isTimeout(out.serr)
+	out.timeout = out.stuck || isTimeout(out.cerr) || isTimeout(out.serr)
 	return out
 }
 
@@ -559,14 +687,21 @@ func (x *exec) hs(where string, api string, host int, sni string, tls12, std, he
 	}
 	out := run(kit.T())
 	if out.timeout {
-		again := run(3 * kit.T())
+		again, bound := out, kit.T()
+		if !kit.Shrinking() {
+			again, bound = run(3*kit.T()), 3*kit.T()
+		}
 		if !again.timeout {
 			kit.Inconclusive(x.check)
 			out = again
 		} else {
-			x.fail("C06/handshake/"+e.shape+"/timeout", "%s: handshake did not finish within %s (client: %v, server: %v)", where, 3*kit.T(), again.cerr, again.serr)
+			x.wedged.Store(true)
+			x.fail("C06/liveness/"+e.shape+"/handshake-timeout", "%s: handshake did not finish within %s (client: %v, server: %v)", where, bound, again.cerr, again.serr)
 			return
 		}
+	}
+	if e.lenient {
+		return // refused or served: both fine for a name outside the stated spellings
 	}
 	if e.refuse {
 		if len(out.raw) > 0 {
@@ -597,6 +732,9 @@ func isIPName(s string) bool { return net.ParseIP(s) != nil }
 
 func (x *exec) step(i int, op Op) {
 	where := fmt.Sprintf("step %d", i)
+	if x.wedged.Load() {
+		return
+	}
 	switch op.Kind {
 	case "get":
 		x.get(where, op.API, op.Host, op.Sni, op.Held)
@@ -631,6 +769,7 @@ func (x *exec) step(i int, op Op) {
 	case "conc":
 		start := make(chan struct{})
 		var wg sync.WaitGroup
+		var progress atomic.Int64
 		results := make([][]result, len(op.Workers))
 		for w, wk := range op.Workers {
 			wg.Add(1)
@@ -645,37 +784,104 @@ func (x *exec) step(i int, op Op) {
 				<-start
 				if wk.Hs {
 					x.hs(ww, "", wk.Host, wk.Sni, false, false, false)
+					progress.Add(1)
 					return
 				}
 				reps := wk.Reps
 				if reps < 1 {
 					reps = 1
 				}
+				var mine []result
+				ask := func(sni string) {
+					mine = append(mine, x.requestInBurst(ww, wk.Host, sni))
+					progress.Add(1)
+				}
 				for r := 0; r < reps; r++ {
-					results[w] = append(results[w], x.request(ww, "", wk.Host, wk.Sni, false))
+					ask(wk.Sni)
 				}
 				// never-seen names force issuance while the others keep asking
 				for j := 0; j < wk.Fresh; j++ {
-					results[w] = append(results[w], x.request(ww, "", wk.Host, freshName(i, j), false))
-					results[w] = append(results[w], x.request(ww, "", wk.Host, wk.Sni, false))
-					results[w] = append(results[w], x.request(ww, "", wk.Host, freshName(i, j), false))
+					ask(freshName(i, j))
+					ask(wk.Sni)
+					ask(freshName(i, j))
 				}
+				results[w] = mine // published by wg.Done
 			}(w, wk)
 		}
 		close(start)
-		wg.Wait()
+		finished := make(chan struct{})
+		go func() { wg.Wait(); close(finished) }()
+		// liveness of the burst: some request must complete every kit.T()
+		// (re-validated once at 3*kit.T()); handshakes carry their own deadline
+		last, lastChange, bound, extended := int64(-1), time.Now(), kit.T()+kit.T()/2, false
+	watch:
+		for {
+			select {
+			case <-finished:
+				break watch
+			case <-time.After(50 * time.Millisecond):
+			}
+			if p := progress.Load(); p != last {
+				if extended {
+					kit.Inconclusive(x.check)
+					bound, extended = kit.T()+kit.T()/2, false
+				}
+				last, lastChange = p, time.Now()
+				continue
+			}
+			if time.Since(lastChange) < bound {
+				continue
+			}
+			if !extended && !kit.Shrinking() {
+				bound, extended = 4*kit.T(), true
+				continue
+			}
+			x.wedged.Store(true)
+			x.fail("C06/liveness/concurrent-burst/no-request-completes", "%s: %d goroutines, %d requests completed, then none for %s", where, len(op.Workers), last, time.Since(lastChange).Round(time.Millisecond))
+			return // the workers are abandoned; their results are not read
+		}
 		for _, rs := range results {
 			for _, r := range rs {
 				x.judgeBurst(r)
 			}
 		}
+	case "sweep":
+		x.sweep(where, op)
 	}
 }
+
+// sweep: a long run of distinct names through one configuration - Count names
+// h<k>.sweep<Tag>.test as SNI over the fallback Host, every certificate
+// judged, then all of them once more in another order (the cache now holds
+// them; what is presented must still be the right one for each).
+func (x *exec) sweep(where string, op Op) {
+	n := op.Count
+	for pass := 0; pass < 2; pass++ {
+		for k := 0; k < n; k++ {
+			j := k
+			if pass == 1 {
+				j = (k*7 + 3) % n // a permutation whenever 7 does not divide n; repeats are harmless otherwise
+			}
+			x.get(fmt.Sprintf("%s sweep pass %d #%d", where, pass, k), "", op.Host, sweepName(op.Tag, j), false)
+			if x.wedged.Load() {
+				return
+			}
+		}
+	}
+}
+
+func sweepName(tag, k int) string { return fmt.Sprintf("h%03d.sweep%d.test", k, tag) }
 
 // tunnels: the path a browser takes. Every worker opens a CONNECT tunnel for
 // its authority through a real proxy that MITMs with the case's Config, waits
 // (Gap) and then starts TLS inside the tunnel.
 func (x *exec) tunnels(where string, op Op) {
+	if panicSeen.Load() {
+		// on the proxy's own goroutine nothing recovers it: the process would
+		// end and take the failures already recorded with it
+		kit.Note(x.check, "tunnels through the real proxy are skipped once GetCertificate has panicked in this process")
+		return
+	}
 	if x.proxy == nil {
 		p := martian.NewProxy()
 		p.SetTimeout(30 * time.Second)
@@ -762,10 +968,17 @@ func (x *exec) tunnel(where string, wk Worker) {
 	}
 	where = fmt.Sprintf("%s CONNECT %s, idle %s, ClientHello with SNI %q", where, authority, gap, wk.Sni)
 	out := x.tunnelOnce(authority, wk.Sni, gap, kit.T())
+	if e.lenient {
+		return // whatever the proxy did with this name; the next tunnels tell
+	}
 	if out.timeout {
-		again := x.tunnelOnce(authority, wk.Sni, gap, 3*kit.T())
+		again, bound := out, kit.T()
+		if !kit.Shrinking() {
+			again, bound = x.tunnelOnce(authority, wk.Sni, gap, 3*kit.T()), 3*kit.T()
+		}
 		if again.timeout {
-			x.fail("C06/handshake/"+e.shape+"/timeout", "%s: stage %s did not finish within %s: %v", where, again.stage, 3*kit.T(), again.err)
+			x.wedged.Store(true)
+			x.fail("C06/liveness/"+e.shape+"/handshake-timeout", "%s: stage %s did not finish within %s: %v", where, again.stage, bound, again.err)
 			return
 		}
 		kit.Inconclusive(x.check)
@@ -838,6 +1051,7 @@ func run(check string, c Case) kit.Verdict {
 
 type caseInfo struct {
 	ip, v6bare, v6port, port, mixed, hit, crossing, conc, handshake, tls12, noName, sni, sniDiffers, std, apiTLS bool
+	odd, afterOdd, long                                                                                          bool
 	held, heldCrossing, tunnel, idleTunnel                                                                       bool
 }
 
@@ -853,6 +1067,13 @@ func analyse(c Case) caseInfo {
 		}
 		if api == "tls" {
 			ci.apiTLS = true
+		}
+		if e.lenient {
+			ci.odd = true
+			return
+		}
+		if ci.odd {
+			ci.afterOdd = true
 		}
 		if e.refuse {
 			ci.noName = true
@@ -917,6 +1138,14 @@ func analyse(c Case) caseInfo {
 			for k := range prepped {
 				prepped[k] = true
 			}
+		case "sweep":
+			if op.Count > 0 {
+				visit("", op.Host, sweepName(op.Tag, 0), false)
+				ci.hit = true
+			}
+			if op.Count >= 160 {
+				ci.long = true
+			}
 		case "prep":
 			prepped[heldKey(op.API, op.Host)] = false
 		case "tunnels":
@@ -947,7 +1176,7 @@ func analyse(c Case) caseInfo {
 
 func nonTrivial(c Case) bool {
 	ci := analyse(c)
-	return ci.ip || ci.port || ci.mixed || ci.hit || ci.crossing || ci.conc || ci.heldCrossing || ci.idleTunnel
+	return ci.ip || ci.port || ci.mixed || ci.hit || ci.crossing || ci.conc || ci.heldCrossing || ci.idleTunnel || ci.afterOdd || ci.long
 }
 
 func classes(c Case) []string {
@@ -960,7 +1189,7 @@ func classes(c Case) []string {
 		{ci.ip, "ip-literal"}, {ci.v6bare, "ipv6-bare"}, {ci.v6port, "ipv6-bracket-port"}, {ci.port, "host-port"},
 		{ci.mixed, "mixed-case"}, {ci.hit, "cache-hit"}, {ci.crossing, "expiry-crossing"}, {ci.conc, "concurrent"},
 		{ci.handshake, "handshake"}, {ci.tls12, "tls12"}, {ci.noName, "no-name"}, {ci.sni, "sni"},
-		{ci.sniDiffers, "sni-differs-from-fallback"}, {ci.std, "std-client"}, {ci.apiTLS, "api-tls"}, {c.short(), "short-validity"}, {ci.held, "held-config"}, {ci.heldCrossing, "held-config-across-expiry"}, {ci.tunnel, "proxy-tunnel"}, {ci.idleTunnel, "idle-tunnel-past-validity"}, {c.CA == "ecdsa", "ecdsa-authority"},
+		{ci.sniDiffers, "sni-differs-from-fallback"}, {ci.std, "std-client"}, {ci.apiTLS, "api-tls"}, {c.short(), "short-validity"}, {ci.odd, "unissuable-name"}, {ci.afterOdd, "request-after-unissuable-name"}, {ci.long, "long-history-160-plus-names"}, {ci.held, "held-config"}, {ci.heldCrossing, "held-config-across-expiry"}, {ci.tunnel, "proxy-tunnel"}, {ci.idleTunnel, "idle-tunnel-past-validity"}, {c.CA == "ecdsa", "ecdsa-authority"},
 	} {
 		if kv.on {
 			out = append(out, kv.name)
